@@ -392,3 +392,12 @@ func snapSpec(b tally.Buckets) tally.Buckets {
 	}
 	return b
 }
+
+// CapsOf maps a small case field to capabilities a recording reporter
+// advertises: 0 (reporting, tagging), 1 (no reporting, tagging), 2 (reporting,
+// no tagging), 3 neither. What a reporter says about itself is advisory (a
+// multi reporter over a null reporter says "not reporting" and still forwards
+// everything to its other children): nothing the scope delivers may depend on it.
+func CapsOf(n int) tally.Capabilities {
+	return Caps(n&1 == 0, n&2 == 0)
+}
